@@ -717,7 +717,11 @@ func (c *Collection) Search(args SearchArgs) SearchResults {
 				log.Panicf("Failed to iterate records: %v", err)
 			}
 		} else {
-			radius := math.MaxFloat64
+			// No bound until a result has been accepted. The largest finite
+			// value is not enough: the distance to a hyperplane overflows to
+			// +Inf for very large query vectors, and the far side would be
+			// pruned before anything was found.
+			radius := math.Inf(1)
 			if args.Radius > 0 {
 				radius = args.Radius
 			}
